@@ -62,11 +62,7 @@ def stepWorld (cas obs : String) : String :=
         -- migration, over several reconciles: while a revision that records the current template sits on the name the
         -- controller probes first (whoever owns it - the built-in set's revision before the garbage collector has orphaned
         -- it), no reconcile of a live set adds another revision recording that template
-        ("C18.stable",
-          let cc0 : Int := c.i.collisionCount.getD 0
-          let held := c.i.store.any (fun r => r.name == c.h.nameOf c.i.template cc0 && r.data == c.i.template)
-          !held || c.i.paused || !c.i.selectorOk || c.i.view.deleting || !c.plan.isEmpty ||
-          irs.all (fun r => r.revs.all (fun d => d.data != c.i.template || c.i.store.any (fun q => q.name == d.name))))]
+        ("C18.stable", C18stable c.h c.i c.plan irs)]
       let tag := if !wfWorld c.h c.i then "outside-premises" else
         (if c.plan.isEmpty then "wf" else if crashed then "wf+crash" else "wf+faulted") ++ s!".rounds{if rs.length ≤ 3 then "1-3" else if rs.length ≤ 6 then "4-6" else if rs.length ≤ 10 then "7-10" else "11+"}"
       s!"{model}\t{v}\t{tag}"
